@@ -150,4 +150,38 @@ theorem fcoll_coded_eq (cs : List Child) (h : ∀ c ∈ cs, c.primary = true →
   | nil => rfl
   | cons c rest => unfold mkFcollWith; rw [findPrimary_coded false _ h]
 
+/-! ### accessors -/
+
+theorem okAccessors_accessors {α : Type} [DecidableEq α] (seq cdsSeq prot : Child → α) (p : Nat) (c : Child) :
+    okAccessors seq cdsSeq prot c p (accessors seq cdsSeq prot (some (p, c))) = true := by
+  unfold okAccessors accessors Child.coding
+  cases h : c.cds <;> simp [h]
+
+/-- `GeneInterval(transcripts)` + accessors (the flag test as it is in /repo): refused for an empty list or several
+    flags; otherwise every accessor returns the value of the primary member -/
+theorem geneAccessors_ok {α : Type} [DecidableEq α] (seq cdsSeq prot : Child → α) (cs : List Child) :
+    (cs = [] ∨ multiFlag cs = true) ∧ ansA (geneAccessors seq cdsSeq prot cs) = none ∨
+    ∃ p c a, geneAccessors seq cdsSeq prot cs = .ok a ∧ cs[p]? = some c ∧ okPrimary cs p = true ∧
+      okAccessors seq cdsSeq prot c p a = true := by
+  cases cs with
+  | nil => exact Or.inl ⟨Or.inl rfl, rfl⟩
+  | cons c0 rest =>
+    have hne : (c0 :: rest) ≠ [] := List.cons_ne_nil _ _
+    unfold geneAccessors
+    have hcur : currentRule = Rule.repaired := rfl
+    rw [hcur]
+    rcases findPrimary_repaired true (c0 :: rest) hne with ⟨hm, he⟩ | ⟨hm, p, d, hf, hc, hp⟩
+    · left
+      refine ⟨Or.inr hm, ?_⟩
+      cases hfp : findPrimary Rule.repaired true (c0 :: rest) with
+      | error e => rfl
+      | ok v => rw [hfp] at he; cases he
+    · right
+      refine ⟨p, d, _, by rw [hf]; rfl, hc, ?_, okAccessors_accessors seq cdsSeq prot p d⟩
+      unfold okPrimary
+      have hk : ((c0 :: rest).map fun c => ((if true = true then c.cdsSize else 0), c.len)) = (c0 :: rest).map Child.key := by
+        apply List.map_congr_left; intro x _; simp [Child.key]
+      rw [hk] at hp
+      exact hp
+
 end BioCantor.Proofs.Agg
